@@ -92,7 +92,7 @@ CHECKS["C15"] = dict(engine="tlc+vh", level="model_checking", ref="4.7", techniq
                      note="Trusted: TLC. Bounded: 2 sources, 2 keys, 50 ms time unit, window 1 s, <= 16 arrivals. Entries later than the arriving event: either.")
 
 MISC_NOTE = "Trusted: TLC as enumerator of the bounded input space; the harness rendering of symbolic shapes/forms to concrete values/text."
-CHECKS["C40"] = dict(engine="tlc+vh", level="model_checking", ref="4.21", technique="TLA+ spec (ValueEq.tla) enumerates with TLC every ordered triple of 34 value shapes with their reference classes; equivalence laws and hash consistency checked on the real Value for each",
+CHECKS["C40"] = dict(engine="tlc+vh", level="model_checking", ref="4.21", technique="TLA+ spec (ValueEq.tla) enumerates with TLC every ordered triple of 41 value shapes (incl. maps with differing key sets whose odd key holds Null) with their reference classes; equivalence laws and hash consistency checked on the real Value for each",
                      text="Finite domain, exhaustive: reflexivity, symmetry, transitivity and equal=>same hash are evaluated on all 39 304 triples, and values the documented semantics identify (NaN, -0.0, permuted maps) must be equal.", note=MISC_NOTE)
 CHECKS["C42"] = dict(engine="tlc+vh", level="model_checking", ref="4.21", technique="TLA+ spec (ForExpand.tla) defines Expand recursively; TLC enumerates every program of the grammar with its expansion; looped source and hand-expanded source are parsed by the real parser and compared",
                      text="For all 2 096 programs of the grammar (nested loops, inclusive/exclusive/empty ranges, multi-declaration bodies) the parsed program equals the parse of the spec's expansion.", note=MISC_NOTE)
